@@ -41,7 +41,8 @@ Inductive case :=
             (info : option (option finfo))             (* white-box: buildFieldsInfo (inner None: error) *)
             (lc lc2 : option jv)                       (* white-box: toLowerCaseKeyMap of the JSON rendering *)
             (load load2 : option obx3)                 (* the three loaders, when the shape is loaded at all *)
-| CaseBad (T : fields) (load : ob3).                   (* three malformed texts *)
+| CaseBad (T : fields) (load : ob3)                    (* three malformed texts *)
+| CaseMFmt (T : fields) (d : doc) (bytes readers : ob3).   (* mapping.Unmarshal{Json,Yaml,Toml}{Bytes,Reader} *)
 
 Definition ob_of (r : result gval) : ob :=
   match r with Ok v => OOk v | Err _ => OErr | Panic => OPanic end.
@@ -127,6 +128,7 @@ Definition in_scope (c : case) : bool :=
   | CaseStd T d _ _ => match d with DMap _ => true | _ => false end
   | CaseShape T d d2 _ _ _ _ _ => rep_top d && opt_all d2 rep_top
   | CaseBad _ _ => true
+  | CaseMFmt T d _ _ => rep_top d
   end.
 
 (* the model (with the concrete re-rendering [rf_go]) reproduces what the implementation did:
@@ -175,6 +177,10 @@ Definition agrees (c : case) : bool :=
     | CaseBad T load =>
       (* a malformed text: the front end (or jsonx) fails, [conf_load T None] *)
       ob3_eqb load (let r := ob_of (conf_load T None) in mkOb3 r r r)
+    | CaseMFmt T d bytes readers =>
+      let um := fun f => ob_of (unmarshal fixed jcfg T (Some (shape rf_go f d))) in
+      let m := mkOb3 (um FJson) (um FYaml) (um FToml) in
+      rf_ok_doc rf_go d && ob3_eqb m bytes && ob3_eqb m readers
     end
   else true.
 
@@ -260,6 +266,10 @@ Definition prop_gen (same3 : ob3 -> bool) (c : case) : bool :=
     | CaseBad T load =>
       (* the verdict for a text that is not a document at all is an error, never a panic or a success *)
       ob3_eqb load (mkOb3 OErr OErr OErr)
+    | CaseMFmt T d bytes readers =>
+      (* mapping's own YAML / TOML / JSON entry points: same verdict, equal values, and the Reader
+         variants behave like the Bytes ones *)
+      ob3_nopanic bytes && same3 bytes && ob3_nopanic readers && ob3_eqb bytes readers
     end
   else true.
 
@@ -279,4 +289,7 @@ Definition model_obs (c : case) :=
      (match lc_model (xinfo T) d with Some j => j | None => JNull end,
       match d2 with Some d' => match lc_model (xinfo T) d' with Some j => j | None => JNull end | None => JNull end))
   | CaseBad T _ => (let r := ob_of (conf_load T None) in mkOb3 r r r, None, None, (JNull, JNull))
+  | CaseMFmt T d _ _ =>
+    (let um := fun f => ob_of (unmarshal fixed jcfg T (Some (shape rf_go f d))) in mkOb3 (um FJson) (um FYaml) (um FToml),
+     None, None, (JNull, JNull))
   end.
